@@ -5,7 +5,7 @@
 \* constants) [t |-> "gumbel_mean", mu, beta] = mu + beta * EulerGamma, [t |-> "gumbel_var", beta] = pi^2/6 beta^2.
 EXTENDS Dist, Reals
 
-P(k, p, i) == IF IntField(k, i) THEN R(p[i]) ELSE Norm(p[i], 4)
+P(k, p, i) == IF IntField(k, i) THEN R(p[i]) ELSE Norm(p[i], Den(k, p))
 Rat(v) == [t |-> "rat", v |-> v]
 InfV == [t |-> "inf"]
 NanV == [t |-> "nan"]
@@ -92,7 +92,8 @@ OnBoundary(k, p, x) ==
 \* exact mass functions of the finite-support laws (Binomial for small n)
 RECURSIVE Choose(_, _)
 Choose(n, j) == IF j = 0 \/ j = n THEN 1 ELSE Choose(n - 1, j - 1) + Choose(n - 1, j)
-HasExactPmf(k, p) == k \in {"Bernoulli", "DiscreteUniform"} \/ (k = "Binomial" /\ p[1] <= 12)
+\* (rows on a finer grid than quarters are judged against the reference table only: their exact moments leave TLC's integers)
+HasExactPmf(k, p) == Den(k, p) = 4 /\ (k \in {"Bernoulli", "DiscreteUniform"} \/ (k = "Binomial" /\ p[1] <= 12))
 SupportPoints(k, p) == CASE k = "Bernoulli" -> {0, 1} [] k = "DiscreteUniform" -> p[1]..p[2] [] k = "Binomial" -> 0..p[1]
 Pmf(k, p, j) ==
   CASE k = "Bernoulli" -> IF j = 1 THEN P(k, p, 1) ELSE RSub(ROne, P(k, p, 1))
